@@ -34,6 +34,7 @@ var lpInputs = map[string]string{
 	"lineprotocol":        lpInput,
 	"lp_comment_first":    "# exported by a tool\n# second comment line\n" + lpInput,
 	"lp_blank_first":      "\n\n" + lpInput,
+	"lp_bom":              "\xef\xbb\xbf" + lpInput,
 	"lp_newline_in_field": "m1,t1=a f1=1i,f2=\"line one\nline two\",ts=\"2021-03-04 05:06:07\",message=\"lpmsg\" 1600000000000000000\nm2,t9=z f9=9i 1600000001000000000\n",
 }
 
@@ -265,6 +266,8 @@ func replayCli(args []string) (any, error) {
 			data = []byte{}
 		case "text_blank":
 			data = []byte(" \n")
+		case "text_bom":
+			data = []byte("\xef\xbb\xbfhello cli world")
 		default:
 			if isLP(v.Cfg.Input) {
 				data = []byte(lpInputs[v.Cfg.Input])
@@ -358,6 +361,9 @@ func replayCli(args []string) (any, error) {
 		wantMeas := "default_name"
 		if isLP(v.Cfg.Input) {
 			wantMeas = "m1"
+		}
+		if v.Cfg.Input == "lp_bom" {
+			wantMeas = "\ufeffm1"
 		}
 		if v.Out.Meas == "new" {
 			wantMeas = "newm"
